@@ -1048,7 +1048,27 @@ impl<'a> GeneratorState<'a> {
                     }
                 }
             }
-            if f.inline {
+            let inline = f.inline;
+            // What the expression has postponed (v++, the restoration of Y) must happen before the function is left.
+            // The value to return is in A already: a postponed operation that computes in A must not destroy it
+            let keep_acc = f.return_type.is_some()
+                && self.deferred_plusplus.iter().any(|d| match &d.0 {
+                    ExprType::X | ExprType::Y => false,
+                    ExprType::Absolute(variable, true, _) => matches!(
+                        self.compiler_state.get_variable(variable).memory,
+                        VariableMemory::Superchip | VariableMemory::MemoryOnChip(_)
+                    ),
+                    _ => true,
+                });
+            if keep_acc {
+                self.sasm(PHA)?;
+            }
+            self.acc_in_use = false;
+            self.purge_deferred_plusplus_and_savey()?;
+            if keep_acc {
+                self.sasm(PLA)?;
+            }
+            if inline {
                 self.asm(JMP, &ExprType::Label(".endof".into()), 0, false)?;
             } else {
                 self.sasm(RTS)?;
